@@ -7,16 +7,15 @@ From Verif Require Import Base.Num Base.Vec Base.VecR C08.Model C08.VecLemmas C0
 Import ListNotations.
 Local Open Scope R_scope.
 
-(* side condition: at a scalar-multiple node the conjugate of the operand is not flagged linear
-   (otherwise Functional.__mul__ builds a LeftScalarMult instead of a RightScalarMult; that case,
-   e.g. 2 * IndicatorZero, is covered by the correspondence only) *)
+(* side condition: a reflection f(s .), s < 0, must not sit on a functional whose conjugate is
+   flagged linear (e.g. IndicatorZero(S) * (-1.0)): the library's conjugate is then a LeftScalarMult with a
+   negative scalar, whose own convex_conj raises ValueError, so the biconjugate cannot be evaluated
+   anyway; the same clause as in [D]. *)
 Fixpoint B (e : fxR) : Prop :=
   match e with
-  | FLeft _ f | FRight _ f =>
-      (forall w f', @cconj R _ w f = Ok f' -> is_linear f' = false) /\ B f
-  | FRightVec _ f | FScalarSum f _ | FTransl f _ | FQuadPert f _ _ _ | FDefConj f | FBreg f => B f
+  | FRight s f => (s < 0 -> forall w f', @cconj R _ w f = Ok f' -> is_linear f' = false) /\ B f
+  | FLeft _ f | FRightVec _ f | FScalarSum f _ | FTransl f _ | FQuadPert f _ _ _ | FDefConj f | FBreg f => B f
   | FSum f g | FInfConv f g | FSep2 _ f g => B f /\ B g
-  | FQuadS (Some _) (Some _) _ => False
   | _ => True
   end.
 
@@ -73,21 +72,21 @@ Qed.
 Definition left_pos (g : fxR) := forall s' g', g = FLeft s' g' -> 0 < s'.
 Definition right_nz (g : fxR) := forall s' g', g = FRight s' g' -> s' <> 0.
 
-Lemma cval_mkLeft s g w y : 0 < s -> lin_ok g -> left_pos g ->
+Lemma cval_mkLeft s g w y : 0 < s -> left_pos g ->
   cval w (mkLeft s g) y = cval w (FLeft s g) y.
 Proof.
-  intros Hs Hok Hlp. destruct (mkLeft_cases s g) as [(s' & g' & -> & ->)| ->]; [|reflexivity].
-  specialize (Hlp s' g' eq_refl). cbn [lin_ok] in Hok.
+  intros Hs Hlp. destruct (mkLeft_cases s g) as [(s' & g' & -> & ->)| ->]; [|reflexivity].
+  specialize (Hlp s' g' eq_refl).
   rewrite (cval_FLeft sqrtf (s * s')) by (try assumption; nra).
   rewrite (cval_FLeft sqrtf s) by assumption. rewrite (cval_FLeft sqrtf s') by assumption.
   rewrite vscal_vscal. replace (1 / s' * (1 / s)) with (1 / (s * s')) by (field; lra).
   destruct (cval w g' _); cbn [rbind]; [|reflexivity]. rewrite escal_escal by assumption. reflexivity.
 Qed.
-Lemma cval_mkRight a g w y : a <> 0 -> lin_ok g -> right_nz g ->
+Lemma cval_mkRight a g w y : a <> 0 -> right_nz g ->
   cval w (mkRight a g) y = cval w (FRight a g) y.
 Proof.
-  intros Ha Hok Hnz. destruct (mkRight_cases a g) as [(s' & g' & -> & ->)| ->]; [|reflexivity].
-  specialize (Hnz s' g' eq_refl). cbn [lin_ok] in Hok.
+  intros Ha Hnz. destruct (mkRight_cases a g) as [(s' & g' & -> & ->)| ->]; [|reflexivity].
+  specialize (Hnz s' g' eq_refl).
   rewrite (cval_FRight sqrtf (a * s')) by (try assumption; nra).
   rewrite (cval_FRight sqrtf a) by assumption. rewrite (cval_FRight sqrtf s') by assumption.
   rewrite vscal_vscal. replace (1 / s' * (1 / a)) with (1 / (a * s')) by (field; lra). reflexivity.
@@ -103,25 +102,107 @@ Proof.
   rewrite wdot_vadd_r by congruence. ring.
 Qed.
 
+(* values of a functional whose conjugate is flagged linear are 0 or +inf *)
+Definition zinf (v : extR) : Prop := match v with EFin r => r = 0 | EPInf => True | EJunk => False end.
+
+Lemma is_linear_mul_right (g : fxR) a : is_linear (mul_right g a) = is_linear g.
+Proof. unfold mul_right. destruct (is_linear g) eqn:L; [rewrite is_linear_mkLeft | rewrite is_linear_mkRight]; assumption. Qed.
+Lemma is_linear_mkTransl (g : fxR) u : is_linear (mkTransl g u) = false.
+Proof. destruct g; reflexivity. Qed.
+
+Ltac fxind3 e :=
+  induction e as [p|p| |c|c|g|a b c|s f IHf|s f IHf|mv f IHf|f IHf g IHg|f IHf c|f IHf t|f IHf a u c
+                 |f IHf g IHg|f IHf|qb IHq|k f IHf g IHg].
+
+Lemma zi e : forall n w e' x v, wf n e -> cj w e = Ok e' -> is_linear e' = true -> val e w x = Ok v -> zinf v.
+Proof.
+  fxind3 e; intros n w e' x v Hwf Hc Hl Hv; cbn [cconj wf value] in *;
+    try (injection Hc as <-; cbn [is_linear] in Hl; discriminate).
+  - (* FL2Sq *) injection Hc as <-. unfold rmul, quarter in Hl. numR. rewrite Reqb_false in Hl by lra.
+    cbn in Hl. discriminate.
+  - (* FIndZero *) injection Hc as <-. cbn [is_linear] in Hl. numR.
+    destruct (Reqb_spec (- c) 0) as [Hz|]; [|discriminate]. inv_ok.
+    match goal with |- context [if ?b then _ else _] => destruct b end; cbn; lra.
+  - (* FQuadS *) destruct a as [a|], b as [b|]; try discriminate;
+      try (destruct (a =? nzero)%num; [discriminate|]; injection Hc as <-; cbn [is_linear] in Hl; discriminate).
+    injection Hc as <-. cbn in Hl. discriminate.
+  - (* FLeft *) destruct Hwf as [Hs Hwf]. numR. rewrite (Rleb_false s 0) in Hc by lra.
+    destruct (cj w f) as [f'|] eqn:E; cbn [rbind] in Hc; [|discriminate]. injection Hc as <-.
+    rewrite is_linear_mul_right in Hl. unfold rmul in Hl. numR. rewrite (Reqb_false s 0) in Hl by lra.
+    rewrite is_linear_mkLeft in Hl.
+    destruct (val f w x) as [v0|] eqn:E1; cbn [rbind] in Hv; inv_ok.
+    pose proof (IHf n w f' x v0 Hwf E Hl E1) as H0.
+    destruct v0; cbn [escal zinf] in *; numR; [subst; ring | rewrite (Rltb_true 0 s Hs); exact I | assumption].
+  - (* FRight *) destruct Hwf as [Hs Hwf].
+    destruct (cj w f) as [f'|] eqn:E; cbn [rbind] in Hc; [|discriminate]. numR.
+    rewrite (Reqb_false s 0) in Hc by assumption. injection Hc as <-.
+    rewrite is_linear_mul_right in Hl. exact (IHf n w f' _ v Hwf E Hl Hv).
+  - (* FRightVec *) destruct Hwf as (Lv & Hnz & Hwf).
+    destruct (cj w f) as [f'|] eqn:E; cbn [rbind] in Hc; [|discriminate]. injection Hc as <-.
+    cbn [is_linear] in Hl. exact (IHf n w f' _ v Hwf E Hl Hv).
+  - (* FScalarSum *) destruct (cj w f) as [f'|] eqn:E; cbn [rbind] in Hc; [|discriminate]. injection Hc as <-.
+    cbn [is_linear] in Hl. apply andb_true_iff in Hl. destruct Hl as [L1 L2]. numR.
+    destruct (Reqb_spec (- (1) * c) 0) as [Hz|]; [|discriminate].
+    unfold radd in Hv. destruct (val f w x) as [v0|] eqn:E1; cbn [rbind] in Hv; inv_ok.
+    pose proof (IHf n w f' x v0 Hwf E L1 E1) as H0.
+    destruct v0; cbn [eadd zinf] in *; numR; [lra | exact I | assumption].
+  - (* FTransl *) destruct Hwf as [Lt Hwf].
+    destruct (cj w f) as [f'|] eqn:E; cbn [rbind] in Hc; [|discriminate]. injection Hc as <-.
+    cbn [is_linear] in Hl. apply andb_true_iff in Hl. destruct Hl as [L12 _].
+    apply andb_true_iff in L12. destruct L12 as [L1 _]. exact (IHf n w f' _ v Hwf E L1 Hv).
+  - (* FQuadPert *) destruct (a =? nzero)%num.
+    + destruct (cj w f) as [f'|] eqn:E; cbn [rbind] in Hc; [|discriminate].
+      destruct (c =? nzero)%num; injection Hc as <-; cbn [is_linear] in Hl;
+        rewrite is_linear_mkTransl in Hl; discriminate.
+    + injection Hc as <-. cbn [is_linear] in Hl. discriminate.
+  - (* FInfConv *) discriminate.
+  - (* FBreg *) exact (IHq n w e' x v Hwf Hc Hl Hv).
+  - (* FSep2 *) destruct Hwf as (Hk & H1 & H2).
+    destruct (cj (firstn k w) f) as [f'|] eqn:E1; cbn [rbind] in Hc; [|discriminate].
+    destruct (cj (skipn k w) g) as [g'|] eqn:E2; cbn [rbind] in Hc; [|discriminate]. injection Hc as <-.
+    cbn [is_linear] in Hl. apply andb_true_iff in Hl. destruct Hl as [L1 L2].
+    unfold radd in Hv.
+    destruct (val f (firstn k w) (firstn k x)) as [v1|] eqn:V1; cbn [rbind] in Hv; inv_ok.
+    destruct (val g (skipn k w) (skipn k x)) as [v2|] eqn:V2; cbn [rbind] in Hv; inv_ok.
+    pose proof (IHf k _ f' _ v1 H1 E1 L1 V1) as Z1.
+    pose proof (IHg (n - k)%nat _ g' _ v2 H2 E2 L2 V2) as Z2.
+    destruct v1, v2; cbn [eadd zinf] in *; numR; try tauto; lra.
+Qed.
+
+Lemma left_pos_mkLeft a g : 0 < a -> left_pos g -> left_pos (mkLeft a g).
+Proof.
+  intros Ha Hg s' g' He. destruct (mkLeft_cases a g) as [(s2 & g2 & -> & Hm)|Hm]; rewrite Hm in He;
+    injection He as <- _; [|assumption]. specialize (Hg s2 g2 eq_refl). nra.
+Qed.
+
 Lemma conj_left_pos e : forall n w e', wf n e -> B e -> cj w e = Ok e' -> left_pos e'.
 Proof.
   fxind2 e; intros n w e' Hwf HB Hc s' g' He; cbn [cconj wf B] in *; subst e';
     try (injection Hc as Hc; discriminate Hc).
   - (* FL2Sq *) injection Hc as Hc. unfold rmul, quarter in Hc. numR. rewrite Reqb_false in Hc by lra.
     cbn [mkLeft] in Hc. injection Hc as <- _. lra.
-  - (* FQuadS *) destruct a as [a|], b as [b|]; try discriminate; try contradiction;
+  - (* FQuadS *) destruct a as [a|], b as [b|]; try discriminate;
       try (destruct (a =? nzero)%num; [discriminate|]; injection Hc as Hc; discriminate Hc);
       try (injection Hc as Hc; discriminate Hc).
-  - (* FLeft *) destruct Hwf as [Hs Hwf]. destruct HB as [Hnl HB]. destruct (s <=? nzero)%num; [discriminate|].
+  - (* FLeft *) destruct Hwf as [Hs Hwf]. numR. rewrite (Rleb_false s 0) in Hc by lra.
     destruct (cj w f) as [f'|] eqn:E; cbn [rbind] in Hc; [|discriminate]. injection Hc as Hc.
     unfold mul_right, rmul in Hc. numR. rewrite (Reqb_false s 0) in Hc by lra.
-    rewrite is_linear_mkLeft, (Hnl w f' E) in Hc.
-    destruct (mkRight_cases (1 / s) (mkLeft s f')) as [(? & ? & _ & Hm)|Hm]; rewrite Hm in Hc; discriminate.
-  - (* FRight *) destruct HB as [Hnl HB].
-    destruct (cj w f) as [f'|] eqn:E; cbn [rbind] in Hc; [|discriminate].
-    destruct (s =? nzero)%num; [discriminate|]. injection Hc as Hc.
-    unfold mul_right in Hc. rewrite (Hnl w f' E) in Hc.
-    destruct (mkRight_cases (1 / s) f') as [(? & ? & _ & Hm)|Hm]; rewrite Hm in Hc; discriminate.
+    rewrite is_linear_mkLeft in Hc. destruct (is_linear f').
+    + assert (Hlp : left_pos (mkLeft (1 / s) (mkLeft s f'))).
+      { apply left_pos_mkLeft; [apply Rdiv_lt_0_compat; lra|]. apply left_pos_mkLeft; [assumption|].
+        exact (IHf n w f' Hwf HB E). }
+      exact (Hlp s' g' Hc).
+    + destruct (mkRight_cases (1 / s) (mkLeft s f')) as [(? & ? & _ & Hm)|Hm]; rewrite Hm in Hc; discriminate.
+  - (* FRight *) destruct Hwf as [Hs Hwf]. destruct HB as [Hneg HB].
+    destruct (cj w f) as [f'|] eqn:E; cbn [rbind] in Hc; [|discriminate]. numR.
+    rewrite (Reqb_false s 0) in Hc by assumption. injection Hc as Hc.
+    unfold mul_right in Hc. destruct (is_linear f') eqn:L.
+    + assert (Hpos : 0 < s).
+      { destruct (Rlt_dec 0 s); [assumption|]. assert (Hn : s < 0) by lra. rewrite (Hneg Hn w f' E) in L. discriminate. }
+      assert (Hlp : left_pos (mkLeft (1 / s) f')).
+      { apply left_pos_mkLeft; [apply Rdiv_lt_0_compat; lra|]. exact (IHf n w f' Hwf HB E). }
+      exact (Hlp s' g' Hc).
+    + destruct (mkRight_cases (1 / s) f') as [(? & ? & _ & Hm)|Hm]; rewrite Hm in Hc; discriminate.
   - (* FRightVec *) destruct (cj w f); cbn [rbind] in Hc; [injection Hc as Hc|]; discriminate.
   - (* FScalarSum *) destruct (cj w f); cbn [rbind] in Hc; [injection Hc as Hc|]; discriminate.
   - (* FTransl *) destruct (cj w f); cbn [rbind] in Hc; [injection Hc as Hc|]; discriminate.
@@ -164,7 +245,7 @@ Proof.
     rewrite Hv in Hcc. inv_ok. apply veq_refl.
   - (* FL2Sq *) unfold ccval in Hcc. cbn [cconj] in Hcc. unfold rmul, quarter in Hcc. numR.
     rewrite Reqb_false in Hcc by lra. cbn [mkLeft] in Hcc.
-    rewrite (cval_FLeft sqrtf) in Hcc by (try lra; exact I).
+    rewrite (cval_FLeft sqrtf) in Hcc by lra.
     unfold Rules.cval in Hcc. cbn [cconj] in Hcc. unfold rmul, quarter in Hcc. numR.
     rewrite Reqb_false in Hcc by lra. cbn in Hcc, Hv. inv_ok. cbn. numR.
     rewrite wdot_vscal_l, wdot_vscal_r. field.
@@ -175,6 +256,17 @@ Proof.
     rewrite cval_FQuadPert_a in Hcc by (numR; lra). discriminate.
   - (* FQuadS *) cbn [wf] in Hwf. destruct Hwf as [Ha Hb]. unfold ccval in Hcc.
     destruct a as [a|], b as [b|]; try contradiction; cbn [value cconj] in Hv, Hcc; inv_ok.
+    + (* operator and vector *)
+      numR. destruct (Reqb_spec a 0); [discriminate|]. unfold Rules.cval in Hcc. cbn [cconj] in Hcc. numR.
+      assert (Hk : quarter * (1 / a) <> 0).
+      { unfold quarter. numR. intros H0. assert (1 / 4 * (1 / a) * (4 * a) = 1) by (field; lra). rewrite H0 in H. lra. }
+      rewrite (Reqb_false _ 0 Hk) in Hcc. cbn [value] in Hcc. inv_ok. cbn [veq]. numR.
+      assert (Hd : forall p r (z : Rvec), vscal p (vadd (vscal r z) (vscal r z)) = vscal (2 * p * r) z).
+      { intros. rewrite vadd_vscal_same, vscal_vscal. f_equal. ring. }
+      unfold quarter in *. numR. rewrite !Hd. rewrite !vscal_vscal.
+      replace (1 / 4 * (1 / (1 / 4 * (1 / a)))) with a by (field; lra).
+      replace (2 * - (1 / 4) * (1 / (1 / 4 * (1 / a))) * (2 * - (1 / 4) * (1 / a))) with 1 by (field; lra).
+      rewrite vscal_one, !wdot_vscal_l, !wdot_vscal_r. field. lra.
     + numR. destruct (Reqb_spec a 0); [discriminate|]. unfold Rules.cval in Hcc. cbn [cconj] in Hcc. numR.
       assert (Hk : quarter * (1 / a) <> 0).
       { unfold quarter. numR. intros H0. assert (1 / 4 * (1 / a) * (4 * a) = 1) by (field; lra). rewrite H0 in H. lra. }
@@ -182,36 +274,64 @@ Proof.
       rewrite !wdot_vscal_r. unfold quarter. numR. field. lra.
     + cbn [mkTransl] in Hcc. rewrite (cval_FTransl sqrtf) in Hcc. cbn in Hcc. inv_ok. cbn. numR.
       rewrite (wdot_comm w x b). ring.
-  - (* FLeft *) cbn [wf] in Hwf. destruct Hwf as [Hs Hwf]. destruct HB as [Hnl HB].
+  - (* FLeft *) cbn [wf] in Hwf. destruct Hwf as [Hs Hwf].
     cbn [value] in Hv. destruct (val f w x) as [v|] eqn:E1; cbn [rbind] in Hv; inv_ok.
     unfold ccval in Hcc. cbn [cconj] in Hcc. numR. rewrite (Rleb_false s 0) in Hcc by lra.
     destruct (cj w f) as [f'|] eqn:E; cbn [rbind] in Hcc; [|discriminate].
     unfold rmul, mul_right in Hcc. numR. rewrite (Reqb_false s 0) in Hcc by lra.
-    rewrite is_linear_mkLeft, (Hnl w f' E) in Hcc.
-    assert (Hok' : lin_ok f') by (eapply lin_ok_conj; [eapply wf_lin_ok; exact Hwf | exact E]).
-    assert (H1s : 1 / s <> 0) by (apply Rgt_not_eq; apply Rdiv_lt_0_compat; lra).
-    rewrite cval_mkRight in Hcc; [|assumption|apply lin_ok_mkLeft; assumption|].
-    2:{ intros s2 g2 Hm. destruct (mkLeft_cases s f') as [(? & ? & _ & Hm')|Hm']; rewrite Hm' in Hm; discriminate. }
-    rewrite (cval_FRight sqrtf) in Hcc by (try assumption; apply lin_ok_mkLeft; assumption).
-    rewrite cval_mkLeft in Hcc by (try assumption; exact (conj_left_pos f n w f' Hwf HB E)).
-    rewrite (cval_FLeft sqrtf) in Hcc by assumption.
-    rewrite (vscal_inv_r (1 / s)) in Hcc by assumption.
-    rewrite (ccval_of_conj w f f' x E) in Hcc.
-    destruct (ccval w f x) as [v'|] eqn:E2; cbn [rbind] in Hcc; inv_ok.
-    apply veq_escal1. exact (IHf n w x v v' Hwf HB Lw Lx E1 E2).
-  - (* FRight *) cbn [wf] in Hwf. destruct Hwf as [Hs Hwf]. destruct HB as [Hnl HB].
+    rewrite is_linear_mkLeft in Hcc.
+    assert (H1s : 0 < 1 / s) by (apply Rdiv_lt_0_compat; lra).
+    pose proof (conj_left_pos f n w f' Hwf HB E) as Hlp.
+    destruct (is_linear f') eqn:L.
+    + (* the conjugate of f is flagged linear: Functional.__mul__ built LeftScalarMult(1/s) of LeftScalarMult(s) *)
+      rewrite cval_mkLeft in Hcc by (try assumption; apply left_pos_mkLeft; assumption).
+      rewrite (cval_FLeft sqrtf) in Hcc by assumption.
+      rewrite cval_mkLeft in Hcc by assumption.
+      rewrite (cval_FLeft sqrtf) in Hcc by assumption.
+      rewrite (vscal_inv_r (1 / s)) in Hcc by lra.
+      rewrite (ccval_of_conj w f f' x E) in Hcc.
+      destruct (ccval w f x) as [v'|] eqn:E2; cbn [rbind] in Hcc; inv_ok.
+      pose proof (IHf n w x v v' Hwf HB Lw Lx E1 E2) as Hveq.
+      pose proof (zi f n w f' x v Hwf E L E1) as Hz.
+      destruct v', v; cbn [veq zinf escal] in *; numR; try tauto.
+      * subst. ring.
+      * rewrite (Rltb_true 0 s Hs). cbn [escal]. numR. rewrite (Rltb_true 0 (1 / s) H1s). exact I.
+    + assert (H1n : 1 / s <> 0) by lra.
+      rewrite cval_mkRight in Hcc; [|assumption|].
+      2:{ intros s2 g2 Hm. destruct (mkLeft_cases s f') as [(? & ? & _ & Hm')|Hm']; rewrite Hm' in Hm; discriminate. }
+      rewrite (cval_FRight sqrtf) in Hcc by assumption.
+      rewrite cval_mkLeft in Hcc by assumption.
+      rewrite (cval_FLeft sqrtf) in Hcc by assumption.
+      rewrite (vscal_inv_r (1 / s)) in Hcc by assumption.
+      rewrite (ccval_of_conj w f f' x E) in Hcc.
+      destruct (ccval w f x) as [v'|] eqn:E2; cbn [rbind] in Hcc; inv_ok.
+      apply veq_escal1. exact (IHf n w x v v' Hwf HB Lw Lx E1 E2).
+  - (* FRight *) cbn [wf] in Hwf. destruct Hwf as [Hs Hwf]. destruct HB as [Hneg HB].
     cbn [value] in Hv.
     unfold ccval in Hcc. cbn [cconj] in Hcc. numR.
     destruct (cj w f) as [f'|] eqn:E; cbn [rbind] in Hcc; [|discriminate].
-    rewrite (Reqb_false s 0) in Hcc by assumption. unfold mul_right in Hcc. rewrite (Hnl w f' E) in Hcc.
-    assert (Hok' : lin_ok f') by (eapply lin_ok_conj; [eapply wf_lin_ok; exact Hwf | exact E]).
+    rewrite (Reqb_false s 0) in Hcc by assumption. unfold mul_right in Hcc.
     assert (H1s : 1 / s <> 0) by (intros H0; apply Hs; field_simplify_eq in H0; lra).
-    rewrite cval_mkRight in Hcc; [|assumption|assumption|].
-    2:{ intros s2 g2 Hm. exact (Moreau.conj_right_nz f n w f' Hwf E s2 g2 Hm). }
-    rewrite (cval_FRight sqrtf) in Hcc by assumption.
-    replace (1 / (1 / s)) with s in Hcc by (field; assumption).
-    rewrite (ccval_of_conj w f f' _ E) in Hcc.
-    exact (IHf n w (vscal s x) vx vxx Hwf HB Lw ltac:(rewrite vscal_length; assumption) Hv Hcc).
+    destruct (is_linear f') eqn:L.
+    + assert (Hpos : 0 < s).
+      { destruct (Rlt_dec 0 s); [assumption|]. assert (Hn : s < 0) by lra. rewrite (Hneg Hn w f' E) in L. discriminate. }
+      assert (H1p : 0 < 1 / s) by (apply Rdiv_lt_0_compat; lra).
+      rewrite cval_mkLeft in Hcc by (try assumption; exact (conj_left_pos f n w f' Hwf HB E)).
+      rewrite (cval_FLeft sqrtf) in Hcc by assumption.
+      replace (1 / (1 / s)) with s in Hcc by (field; assumption).
+      rewrite (ccval_of_conj w f f' _ E) in Hcc.
+      destruct (ccval w f (vscal s x)) as [v'|] eqn:E2; cbn [rbind] in Hcc; inv_ok.
+      pose proof (IHf n w (vscal s x) vx v' Hwf HB Lw ltac:(rewrite vscal_length; assumption) Hv E2) as Hveq.
+      pose proof (zi f n w f' _ vx Hwf E L Hv) as Hz.
+      destruct v', vx; cbn [veq zinf escal] in *; numR; try tauto.
+      * subst. ring.
+      * rewrite (Rltb_true 0 (1 / s) H1p). exact I.
+    + rewrite cval_mkRight in Hcc; [|assumption|].
+      2:{ intros s2 g2 Hm. exact (Moreau.conj_right_nz f n w f' Hwf E s2 g2 Hm). }
+      rewrite (cval_FRight sqrtf) in Hcc by assumption.
+      replace (1 / (1 / s)) with s in Hcc by (field; assumption).
+      rewrite (ccval_of_conj w f f' _ E) in Hcc.
+      exact (IHf n w (vscal s x) vx vxx Hwf HB Lw ltac:(rewrite vscal_length; assumption) Hv Hcc).
   - (* FRightVec *) cbn [wf] in Hwf. destruct Hwf as (Lv & Hnz & Hwf). cbn [value] in Hv.
     unfold ccval in Hcc. cbn [cconj] in Hcc.
     destruct (cj w f) as [f'|] eqn:E; cbn [rbind] in Hcc; [|discriminate].
@@ -233,7 +353,7 @@ Proof.
     numR. rewrite (cval_FQuadPert0 sqrtf) in Hcc. rewrite (Reqb_true 0 0) in Hcc by reflexivity.
     rewrite (ccval_of_conj w f f' _ E) in Hcc.
     exact (IHf n w (vsub x t) vx vxx Hwf HB Lw ltac:(rewrite vsub_length; congruence) Hv Hcc).
-  - (* FQuadPert *) cbn [wf] in Hwf. destruct Hwf as (Ha & Lu & Hwf & _).
+  - (* FQuadPert *) cbn [wf] in Hwf. destruct Hwf as (Ha & Lu & Hwf).
     unfold ccval in Hcc. cbn [cconj] in Hcc. numR.
     destruct (Reqb_spec a 0) as [->|Hna].
     2:{ rewrite (cval_FDefConj sqrtf) in Hcc. rewrite Hv in Hcc. inv_ok. apply veq_refl. }
@@ -294,35 +414,5 @@ Lemma B_example_proof :
 Proof.
   cbv zeta. split.
   - cbn [wf length]. repeat split; try lra; try lia.
-  - cbn [B]. repeat split.
-    + intros w f' H. cbn [cconj rbind] in H. numR. rewrite (Reqb_false (-3) 0) in H by lra.
-      cbn [rbind] in H. injection H as <-. reflexivity.
-    + intros w f' H. cbn in H. injection H as <-. reflexivity.
-Qed.
-
-(* The full statement (without [B]) is FALSE of the faithful model -- and of the library:
-   e = 2 * (<b, .> + 0)  (a FunctionalSum of two functionals flagged linear) on rn(1), b = [1], x = [1]:
-   e(x) = 2 but e.convex_conj.convex_conj(x) = 1, because FunctionalDefaultConvexConjugate inherits
-   the linear flag of its argument, so that Functional.__mul__ builds a LeftScalarMult where the rule
-   s * f~ * (1/s) needs a RightScalarMult (finding defaultconj-linear-flag). *)
-Lemma biconj_refuted_proof :
-  exists (e e' e'' : fxR) (x : Rvec) (vx vxx : extR),
-    wf 1 e /\ value sqrt 0 e [1] x = Ok vx /\ cconj [1] e = Ok e' /\ cconj [1] e' = Ok e'' /\
-    value sqrt 0 e'' [1] x = Ok vxx /\ ~ veq (Ok vxx) (Ok vx).
-Proof.
-  exists (FLeft 2 (FSum (FQuadS None (Some [1]) 0) (FConst 0))).
-  eexists. eexists. exists [1]. eexists. eexists.
-  split; [cbn [wf length]; repeat split; lra|].
-  split; [cbn [value rbind radd]; reflexivity|].
-  split.
-  { cbn [cconj]. numR. rewrite (Rleb_false 2 0) by lra. cbn [rbind]. unfold rmul, mul_right. numR.
-    rewrite (Reqb_false 2 0) by lra. cbn [mkLeft is_linear]. numR. rewrite (Reqb_true 0 0) by reflexivity.
-    cbn [andb mkLeft]. reflexivity. }
-  split.
-  { cbn [cconj]. numR.
-    assert (H1 : 1 / 2 * 2 = 1) by field. rewrite H1. rewrite (Rleb_false 1 0) by lra. cbn [rbind].
-    unfold rmul, mul_right. numR. rewrite (Reqb_false 1 0) by lra.
-    cbn [mkLeft is_linear]. numR. rewrite (Reqb_true 0 0) by reflexivity. cbn [andb mkLeft]. reflexivity. }
-  split; [cbn [value rbind radd escal eadd]; reflexivity|].
-  cbn. numR. unfold wdot, vmul. cbn. numR. lra.
+  - cbn [B]. repeat split. intros _ w f' H. cbn in H. injection H as <-. reflexivity.
 Qed.
